@@ -136,7 +136,11 @@ func (r *Run) Finish() Summary {
 					// not compared, only that it also reports success
 					g := strings.Replace(got, "okswallow ", "ok ", 1)
 					if g == p.Want || (strings.Contains(p.Want, "ok ") && !strings.Contains(p.Want, "err") && !strings.Contains(p.Want, "panic")) {
-						sum.Findings = append(sum.Findings, Finding{Class: "known-finding", KF: "KF-C08-swallow", Detail: "nested keyed-member error swallowed", Case: *c, Probe: *p})
+						if r.Prop == "C08" || r.Prop == "C13" {
+							sum.Findings = append(sum.Findings, Finding{Class: "known-finding", KF: "KF-C08-swallow", Detail: "nested keyed-member error swallowed", Case: *c, Probe: *p})
+						}
+						// elsewhere the tie holds modulo the discarded result; whether the property holds on
+						// this case is for its oracle probe to say
 						continue
 					}
 				}
